@@ -118,6 +118,11 @@ def conv(v, to):
         return Val(ext(v.smt, f.width, to.width, f.signed and f.kind == 'int'), to)
     if f.kind == 'float' and to.kind == 'float' and f.width == to.width:
         return Val(v.smt, to)
+    if f.kind == 'float' and to.kind == 'float':
+        # float <-> double: a VALUE conversion (IEEE 754 round-to-nearest-even), not a reinterpretation; the result is again carried as its bit pattern
+        eb0, sb0 = (8, 24) if f.width == 32 else (11, 53)
+        eb1, sb1 = (8, 24) if to.width == 32 else (11, 53)
+        return Val('(fp.to_ieee_bv ((_ to_fp %d %d) RNE ((_ to_fp %d %d) %s)))' % (eb1, sb1, eb0, sb0, v.smt), to)
     if f.kind == 'float' and to.kind == 'int' and RUST_FLOAT_AS_INT[0]:
         # Rust `as`: round toward zero, saturate at the target's range, NaN -> 0 (a VALUE conversion, not a reinterpretation)
         eb, sb = (8, 24) if f.width == 32 else (11, 53)
@@ -653,6 +658,8 @@ def conv_or_reint(v, to):
     if v.ty.kind == 'float' or to.kind == 'float':
         if v.ty.kind == to.kind and v.ty.width == to.width:
             return Val(v.smt, to)
+        if v.ty.kind == 'float' and to.kind == 'float':
+            return conv(v, to)   # float -> double promotion / double -> float rounding
         raise Unsupported('implicit conversion %s -> %s is a value conversion between float and integer' % (v.ty, to))
     return conv(v, to)
 
